@@ -330,7 +330,7 @@ class _FreshState:
     def purge(self, **kw): self.vc.emit('state.purge', self, kw)
 
 
-@harness('H9', targets='kopf._core.reactor.processing.process_watching_cause', props=['C07', 'C15', 'C11'],
+@harness('H9', targets='kopf._core.reactor.processing.process_watching_cause', props=['C07', 'C15', 'C11', 'C08'],
          clauses=['handlers_of_the_watching_registry', 'executed_once_all_fresh', 'errors_ignored', 'results_delivered',
                   'nothing_persisted', 'never_waits', 'errors_propagate'],
          canaries=['canary.always_returns'],
@@ -463,7 +463,7 @@ class CtxVar:
         self.vc.emit('var.reset', self.name)
 
 
-@harness('X4', targets='kopf._core.actions.execution.invoke_handler', props=['C02', 'C11', 'C04'],
+@harness('X4', targets='kopf._core.actions.execution.invoke_handler', props=['C02', 'C11', 'C04', 'C09', 'C10', 'C15', 'C17', 'C18'],
          clauses=['adjusted_cause_used', 'context_during_call', 'context_at_extra_exit', 'context_restored', 'invoked_once_as_given',
                   'inside_extra_context', 'result_returned', 'exceptions_propagate_unchanged'],
          canaries=['canary.never_raises', 'canary.cause_never_adjusted'],
@@ -611,7 +611,7 @@ class _HId(str):
 
 
 @harness('N4', targets=['kopf._core.engines.activities.authenticate', 'kopf._core.engines.activities.authenticator'],
-         props=['C12', 'C20'],
+         props=['C12', 'C20', 'C11'],
          clauses=['auth.waits_for_emptiness_first', 'auth.runs_the_authentication_activity', 'auth.populates_with_the_results',
                   'auth.returns_only_after_populate', 'auth.failure_escalates',
                   'loop.one_authentication_per_round', 'loop.same_vault_and_registry', 'loop.failure_escalates', 'loop.never_returns'],
@@ -785,7 +785,7 @@ def _n4_authenticator(vc):
 
 
 # =============================================================================================== D2w
-@harness('D2w', targets='kopf._core.engines.daemons._wait_for_instant_exit', props=['C09', 'C06', 'C20'],
+@harness('D2w', targets='kopf._core.engines.daemons._wait_for_instant_exit', props=['C09', 'C06', 'C20', 'C13'],
          clauses=['changes_nothing', 'no_wait_when_done', 'timeout_mode', 'cycles_mode', 'no_wait_without_settings'],
          canaries=['canary.never_waits', 'canary.uses_all_cycles'],
          trusted=['aiotasks.wait(tasks, timeout=T) by contract S4w: returns after a suspension once the tasks are done or T has elapsed',
@@ -967,7 +967,7 @@ class FakeFuture:
         return f'<future {self.name}>'
 
 
-@harness('U4', targets=['kopf._core.reactor.running.stop_flag_checker', 'kopf._core.reactor.running.ultimate_termination'], props=['C20'],
+@harness('U4', targets=['kopf._core.reactor.running.stop_flag_checker', 'kopf._core.reactor.running.ultimate_termination'], props=['C20', 'C09'],
          clauses=['checker.waits_for_all_given_flags', 'checker.returns_only_on_flag_or_cancellation', 'checker.never_fails',
                   'ultimate.sleeps_until_shutdown', 'ultimate.kill_scheduled_iff_unintended_and_timeout', 'ultimate.kill_after_exactly_the_timeout',
                   'ultimate.never_fails'],
